@@ -24,15 +24,16 @@ import (
 )
 
 type ReachScenario struct {
-	ID       string   `json:"id"`
-	Mode     string   `json:"mode"` // small | wide | edge | fresh
-	Gen      *GenSpec `json:"gen"`
-	Targets  []string `json:"targets"`  // wide: values to reach (decimal)
-	Fallback int      `json:"fallback"` // PRNG draws to try for what the structured inputs miss
-	Draws    int      `json:"draws"`    // edge: number of PRNG draws
-	K        int      `json:"k"`        // fresh: number of Check calls / child processes
-	Stale    bool     `json:"stale"`    // fresh: an ignored fail file is present
-	Procs    bool     `json:"procs"`    // fresh: separate processes
+	ID         string   `json:"id"`
+	Mode       string   `json:"mode"` // small | wide | edge | fresh
+	Gen        *GenSpec `json:"gen"`
+	Targets    []string `json:"targets"`    // wide: values to reach (decimal)
+	Fallback   int      `json:"fallback"`   // PRNG draws to try for what the structured inputs miss
+	Draws      int      `json:"draws"`      // edge: number of PRNG draws
+	K          int      `json:"k"`          // fresh: number of Check calls / child processes
+	Stale      bool     `json:"stale"`      // fresh: an ignored fail file is present
+	Procs      bool     `json:"procs"`      // fresh: separate processes
+	NoAutoSeed bool     `json:"noAutoSeed"` // fresh: child processes run with GODEBUG=randautoseed=0
 }
 
 func wordsBytes(ws ...uint64) []byte {
@@ -341,6 +342,9 @@ func freshSeeds(t *testing.T, rec *Recorder, sc *ReachScenario) {
 		for k := 0; k < sc.K; k++ {
 			cmd := exec.Command(os.Args[0], "-test.run", "^TestVerifChild$", "-test.timeout", "0", "-verif.child", `{"fresh":true}`)
 			cmd.Dir = dir
+			if sc.NoAutoSeed {
+				cmd.Env = append(os.Environ(), "GODEBUG=randautoseed=0") // the process-wide math/rand source is then the same in every process
+			}
 			_ = cmd.Run()
 			if b, err := os.ReadFile(filepath.Join(dir, "fresh.out")); err == nil {
 				fs := strings.Fields(string(b))
